@@ -5,11 +5,16 @@
  *           callback answer: I = GD_SYNTAX_IGNORE, C = GD_SYNTAX_CONTINUE,
  *           A = GD_SYNTAX_ABORT, R = GD_SYNTAX_RESCAN once per line with the
  *           offending line replaced by <rescan-line> (then IGNORE)
+ *         or  P=<answers> <format-hex>: the k-th callback call answers with the
+ *           k-th letter (last one repeated): I C A as above, R = RESCAN with the
+ *           line replaced by an acceptable one, X = an invalid response (77)
  * stdout: one line per case:
  *   E<gd_error> S<suberror of the reported error or 0> L<its line or 0>
  *   C<number of callbacks>[ <suberror>@<line>...] F<gd_nfields>
  *   O<frame offset of fragment 0> N<1 if GD_ARM_ENDIAN is set on fragment 0>
  *   P<samples per frame of field "x", or -1> T<entry type of "x" or 0>
+ *   X:<canonical dump of the entry "x" (type, input fields, parameters as
+ *      L<literal> or S<scalar code>[<index>]), or X:- >
  * The dirfile directory also contains an empty fragment "frag" (for INCLUDE).
  */
 #include "internal.h"
@@ -18,11 +23,98 @@
 #define MAXCB 64
 static int ncb, cb_sub[MAXCB], cb_line[MAXCB], action, rescanned_line;
 static char rescan_text[8192];
+static const char *answers;   /* non-NULL: one answer letter per callback call (last one repeated) */
+
+
+/* canonical dump of the entry "x" (compared with coq/C08/LineSpec.v) */
+static uint64_t dbits(double d) { uint64_t u; if (d != d) return 0x7ff8000000000000ULL; memcpy(&u, &d, 8); return u; }
+static void hexs(const char *s) { if (!s || !*s) { printf("-"); return; } for (; *s; s++) printf("%02x", (unsigned char)*s); }
+static int sfield(const gd_entry_t *E, int i)
+{
+  if (E->scalar[i]) { printf("S"); hexs(E->scalar[i]); printf("[%d]", E->scalar_ind[i]); return 1; }
+  return 0;
+}
+static void pc(const gd_entry_t *E, int i, double _Complex z)
+{ if (!sfield(E, i)) printf("L%" PRIx64 ":%" PRIx64, dbits(creal(z)), dbits(cimag(z))); }
+static void dump_entry(DIRFILE *D)
+{
+  gd_entry_t E;
+  int i;
+  if (gd_entry(D, "x", &E)) { printf(" X:-"); return; }
+  printf(" X:");
+  switch (E.field_type) {
+    case GD_RAW_ENTRY: printf("RAW:%x:", E.EN(raw,data_type)); if (!sfield(&E, 0)) printf("L%u", E.EN(raw,spf)); break;
+    case GD_LINCOM_ENTRY:
+      printf("LINCOM:%d:", E.EN(lincom,n_fields));
+      for (i = 0; i < E.EN(lincom,n_fields); i++) { if (i) printf(","); hexs(E.in_fields[i]); }
+      printf(":");
+      for (i = 0; i < E.EN(lincom,n_fields); i++) { if (i) printf(","); pc(&E, i, E.EN(lincom,cm)[i]); }
+      printf(":");
+      for (i = 0; i < E.EN(lincom,n_fields); i++) { if (i) printf(","); pc(&E, i + GD_MAX_LINCOM, E.EN(lincom,cb)[i]); }
+      break;
+    case GD_LINTERP_ENTRY: printf("LINTERP:"); hexs(E.in_fields[0]); printf(":"); hexs(E.EN(linterp,table)); break;
+    case GD_BIT_ENTRY: case GD_SBIT_ENTRY:
+      printf("%s:", E.field_type == GD_BIT_ENTRY ? "BIT" : "SBIT"); hexs(E.in_fields[0]); printf(":");
+      if (!sfield(&E, 0)) printf("L%d", E.EN(bit,bitnum));
+      printf(":");
+      if (!sfield(&E, 1)) printf("L%d", E.EN(bit,numbits));
+      break;
+    case GD_MULTIPLY_ENTRY: case GD_DIVIDE_ENTRY: case GD_INDIR_ENTRY: case GD_SINDIR_ENTRY:
+      printf("%s:", E.field_type == GD_MULTIPLY_ENTRY ? "MULTIPLY" : E.field_type == GD_DIVIDE_ENTRY ? "DIVIDE" :
+             E.field_type == GD_INDIR_ENTRY ? "INDIR" : "SINDIR");
+      hexs(E.in_fields[0]); printf(","); hexs(E.in_fields[1]); break;
+    case GD_PHASE_ENTRY: printf("PHASE:"); hexs(E.in_fields[0]); printf(":"); if (!sfield(&E, 0)) printf("L%" PRId64, (int64_t)E.EN(phase,shift)); break;
+    case GD_POLYNOM_ENTRY:
+      printf("POLYNOM:%d:", E.EN(polynom,poly_ord)); hexs(E.in_fields[0]); printf(":");
+      for (i = 0; i <= E.EN(polynom,poly_ord); i++) { if (i) printf(","); pc(&E, i, E.EN(polynom,ca)[i]); }
+      break;
+    case GD_RECIP_ENTRY: printf("RECIP:"); hexs(E.in_fields[0]); printf(":"); pc(&E, 0, E.EN(recip,cdividend)); break;
+    case GD_MPLEX_ENTRY:
+      printf("MPLEX:"); hexs(E.in_fields[0]); printf(","); hexs(E.in_fields[1]); printf(":");
+      if (!sfield(&E, 0)) printf("L%d", E.EN(mplex,count_val));
+      printf(":");
+      if (!sfield(&E, 1)) printf("L%d", E.EN(mplex,period));
+      break;
+    case GD_WINDOW_ENTRY:
+      printf("WINDOW:"); hexs(E.in_fields[0]); printf(","); hexs(E.in_fields[1]); printf(":%d:", E.EN(window,windop));
+      if (!sfield(&E, 0)) switch (E.EN(window,windop)) {
+        case GD_WINDOP_EQ: case GD_WINDOP_NE: printf("L%" PRId64, (int64_t)E.EN(window,threshold).i); break;
+        case GD_WINDOP_SET: case GD_WINDOP_CLR: printf("L%" PRIu64, (uint64_t)E.EN(window,threshold).u); break;
+        default: printf("L%" PRIx64, dbits(E.EN(window,threshold).r));
+      }
+      break;
+    case GD_CONST_ENTRY: printf("CONST:%x", E.EN(scalar,const_type)); break;
+    case GD_CARRAY_ENTRY: printf("CARRAY:%x:%zu", E.EN(scalar,const_type), (size_t)E.EN(scalar,array_len)); break;
+    case GD_STRING_ENTRY: { char buf[4096]; buf[0] = 0; gd_get_string(D, "x", sizeof buf, buf); printf("STRING:"); hexs(buf); } break;
+    case GD_SARRAY_ENTRY: {
+      size_t n = gd_array_len(D, "x"), k; const char *v[64];
+      printf("SARRAY:");
+      if (n <= 64 && gd_get_sarray(D, "x", v) == 0) for (k = 0; k < n; k++) { if (k) printf(","); hexs(v[k]); }
+    } break;
+    default: printf("?%d", E.field_type);
+  }
+  gd_free_entry_strings(&E);
+}
 
 static int cb(gd_parser_data_t *p, void *extra)
 {
   (void)extra;
   if (ncb < MAXCB) { cb_sub[ncb] = p->suberror; cb_line[ncb] = p->linenum; }
+  if (answers) {
+    size_t n = strlen(answers);
+    int a = answers[(size_t)ncb < n ? (size_t)ncb : n - 1];
+    ncb++;
+    switch (a) {
+      case 'C': return GD_SYNTAX_CONTINUE;
+      case 'A': return GD_SYNTAX_ABORT;
+      case 'I': return GD_SYNTAX_IGNORE;
+      case 'X': return 77;                 /* not a valid response */
+      case 'R':                            /* replace by a line that is accepted */
+        snprintf(p->line, GD_MAX_LINE_LENGTH, "r%d RAW UINT8 1\n", ncb);
+        return GD_SYNTAX_RESCAN;
+    }
+    return GD_SYNTAX_ABORT;
+  }
   ncb++;
   switch (action) {
     case 'C': return GD_SYNTAX_CONTINUE;
@@ -67,6 +159,13 @@ int main(void)
     if (!sp || strlen(line) < 4) { printf("BADCASE\n"); continue; }
     flags |= (line[0] == 'P') ? GD_PEDANTIC : GD_PERMISSIVE;
     action = line[1];
+    answers = NULL;
+    if (line[1] == '=') {                  /* P=<answers> <hex>: an answer per call */
+      static char ans[256];
+      size_t k = 0;
+      while (line[2 + k] && line[2 + k] != ' ' && k < sizeof ans - 1) { ans[k] = line[2 + k]; k++; }
+      ans[k] = 0; answers = ans;
+    }
     sp2 = strchr(sp + 1, ' ');
     rescan_text[0] = 0;
     if (sp2) { unhex(sp2 + 1, rescan_text); }
@@ -92,7 +191,9 @@ int main(void)
         if (E.field_type == GD_RAW_ENTRY) spf = (int)E.EN(raw,spf);
         gd_free_entry_strings(&E);
       }
-      printf(" F%u O%lld N%d P%d T%d\n", nf, fo, (en & GD_ARM_ENDIAN) ? 1 : 0, spf, ty);
+      printf(" F%u O%lld N%d P%d T%d", nf, fo, (en & GD_ARM_ENDIAN) ? 1 : 0, spf, ty);
+      dump_entry(D);
+      printf("\n");
     } else printf(" F- O- N- P- T-\n");
     gd_discard(D);
   }
